@@ -119,6 +119,15 @@ impl TableBootstrapInner {
         }
 
         self.state_tx.send(new_state).unwrap_or(());
+        #[cfg(btdht_verif)]
+        crate::verif::emit("BootState", || {
+            vec![
+                ("node", self.socket.local_addr().into()),
+                ("from", format!("{old_state:?}").into()),
+                ("to", format!("{new_state:?}").into()),
+                ("table", crate::verif::table_val(&self.table.lock().unwrap())),
+            ]
+        });
 
         tracing::info!(
             "{}: TableBootstrap state change {:?} -> {:?} (from_line: {})",
@@ -402,6 +411,14 @@ impl TableBootstrapInner {
             if let Some(node) = self.table.lock().unwrap().find_node_mut(&node) {
                 node.local_request();
             }
+            #[cfg(btdht_verif)]
+            crate::verif::emit("BootSent", || {
+                vec![
+                    ("node", self.socket.local_addr().into()),
+                    ("to", node.into()),
+                    ("table", crate::verif::table_val(&self.table.lock().unwrap())),
+                ]
+            });
         }
     }
 
@@ -429,9 +446,30 @@ impl TableBootstrapInner {
                 };
 
                 self.table.lock().unwrap().add_nodes(node, nodes);
+                #[cfg(btdht_verif)]
+                crate::verif::emit("BootMsg", || {
+                    vec![
+                        ("node", self.socket.local_addr().into()),
+                        ("from", from.into()),
+                        ("accepted", true.into()),
+                        ("table", crate::verif::table_val(&self.table.lock().unwrap())),
+                    ]
+                });
 
                 true
             }
+            #[cfg(btdht_verif)]
+            _ => {
+                crate::verif::emit("BootMsg", || {
+                    vec![
+                        ("node", self.socket.local_addr().into()),
+                        ("from", from.into()),
+                        ("accepted", false.into()),
+                    ]
+                });
+                false
+            }
+            #[cfg(not(btdht_verif))]
             _ => false,
         }
     }
